@@ -110,6 +110,32 @@ func newEngine(repo string, config string, patterns []string) (*Engine, error) {
 	prog.Build()
 	e.prog = prog
 	e.allFuncs = ssautil.AllFunctions(prog)
+	// ssautil.AllFunctions is a linker-style reachability: methods of an unexported type that no loaded package
+	// calls or converts to an interface (expander.expanderXOF, returned by its constructor as a concrete pointer)
+	// are not in it. Add the methods of every non-generic named type declared in the module's packages.
+	for _, p := range prog.AllPackages() {
+		if p.Pkg == nil || !(p.Pkg.Path() == e.modPath || strings.HasPrefix(p.Pkg.Path(), e.modPath+"/")) {
+			continue
+		}
+		for _, m := range p.Members {
+			t, ok := m.(*ssa.Type)
+			if !ok {
+				continue
+			}
+			named, ok := t.Type().(*types.Named)
+			if !ok || named.TypeParams().Len() > 0 || types.IsInterface(named) {
+				continue
+			}
+			for _, T := range []types.Type{named, types.NewPointer(named)} {
+				ms := prog.MethodSets.MethodSet(T)
+				for i := 0; i < ms.Len(); i++ {
+					if f := prog.MethodValue(ms.At(i)); f != nil && f.Blocks != nil {
+						e.allFuncs[f] = true
+					}
+				}
+			}
+		}
+	}
 	return e, nil
 }
 
